@@ -160,6 +160,37 @@ pub fn derive_selection(tree: &MNode, ch: &mut Choices, opts: SelOpts) -> Map<St
         // simplest: select nothing
         0 => return Map::new(),
         1 => return crate::tree::select_all(tree),
+        2 => {
+            // everything `true`, but some members left out by absence and some containers
+            // selected with a plain `true` (the claim without what is hidden beneath)
+            fn prune(v: &Value, ch: &mut Choices) -> Value {
+                match v {
+                    Value::Object(o) => {
+                        if ch.chance(15) {
+                            return Value::Bool(true);
+                        }
+                        let mut out = Map::new();
+                        for (k, c) in o {
+                            if ch.chance(75) {
+                                out.insert(k.clone(), prune(c, ch));
+                            }
+                        }
+                        Value::Object(out)
+                    }
+                    Value::Array(a) => {
+                        if ch.chance(15) {
+                            return Value::Bool(true);
+                        }
+                        Value::Array(a.iter().map(|c| prune(c, ch)).collect())
+                    }
+                    other => other.clone(),
+                }
+            }
+            return match prune(&Value::Object(crate::tree::select_all(tree)), ch) {
+                Value::Object(o) => o,
+                _ => crate::tree::select_all(tree),
+            };
+        }
         _ => {}
     }
     // how eager to select: keeps a healthy share of "mostly everything" and "mostly nothing"
